@@ -109,6 +109,8 @@ struct RefMsgDef {
   std::vector<std::string> fieldNames;
   std::vector<bool> fieldNumeric;   // UCH numeric, STR string
   std::vector<int> fieldLen;
+  bool masterPart = false;   // fields are in the master data (broadcast / master-master message)
+  size_t idLen = 0;
 };
 
 static void runL2m(const plan::Plan& p, hz::RunResult* res, bool verbose) {
@@ -137,6 +139,19 @@ static void runL2m(const plan::Plan& p, hz::RunResult* res, bool verbose) {
       hz::finishRun(res);
     }
   }
+  {
+    // an optional second file: conditions are scoped by file, the same names may mean something else there
+    std::string csv2;
+    for (auto& l : p.lines) if (l.kind == "def2") csv2 += decodeCsv(l.get("l")) + "\n";
+    if (!csv2.empty()) {
+      std::istringstream is("#\n" + csv2);
+      result_t r = map->readFromStream(&is, "sim2.csv", 1700000000, false, nullptr, &err);
+      if (r != RESULT_OK) {
+        res->violate("INFRA", "infra", "definitions of the second file rejected", err + " / " + getResultCode(r));
+        hz::finishRun(res);
+      }
+    }
+  }
   // reference definitions (given explicitly in the plan, not derived from the CSV by repo code)
   std::map<std::string, RefMsgDef> refMsgs;
   std::map<std::string, RefCond> refConds;
@@ -159,6 +174,8 @@ static void runL2m(const plan::Plan& p, hz::RunResult* res, bool verbose) {
         d.fieldLen.push_back(atoi(t.c_str() + col + 2));
         i = j + 1;
       }
+      d.masterPart = l.get("part", "s") == "m";
+      d.idLen = static_cast<size_t>(l.num("idlen", 0));
       refMsgs[d.name] = d;
       msgMaster[d.name] = ref::unhex(l.get("master"));
     } else if (l.kind == "refcond") {
@@ -182,7 +199,7 @@ static void runL2m(const plan::Plan& p, hz::RunResult* res, bool verbose) {
         if (rc.hasValues && rc.field < 0) rc.resolvable = false;
         if (!rc.hasValues) rc.field = 0;
       }
-      refConds[rc.name] = rc;
+      refConds[(l.num("file", 1) == 2 ? "2:" : "") + rc.name] = rc;
     } else if (l.kind == "refguard") {
       std::string conds = l.get("conds");
       std::vector<std::string> cs, vs;
@@ -192,8 +209,9 @@ static void runL2m(const plan::Plan& p, hz::RunResult* res, bool verbose) {
         if (j == std::string::npos) j = conds.size();
         std::string t = conds.substr(i, j - i);
         size_t e = t.find_first_of("=<>");
-        if (e == std::string::npos) { cs.push_back(t); vs.push_back(""); }
-        else { cs.push_back(t.substr(0, e)); std::string v = t.substr(e); if (v[0] == '=') v.erase(0, 1); for (char& ch : v) if (ch == '~') ch = ' '; vs.push_back(v); }
+        const std::string fp = l.num("file", 1) == 2 ? "2:" : "";
+        if (e == std::string::npos) { cs.push_back(fp + t); vs.push_back(""); }
+        else { cs.push_back(fp + t.substr(0, e)); std::string v = t.substr(e); if (v[0] == '=') v.erase(0, 1); for (char& ch : v) if (ch == '~') ch = ' '; vs.push_back(v); }
         i = j + 1;
       }
       guards[l.get("name")] = cs;
@@ -230,7 +248,8 @@ static void runL2m(const plan::Plan& p, hz::RunResult* res, bool verbose) {
   }
   std::vector<Op>* pops = &ops;
   std::map<std::string, Bytes>* pMaster = &msgMaster;
-  auto exec = [map, pops, pMaster](char role) {
+  const std::string* pcsv = &csv;
+  auto exec = [map, pops, pMaster, pcsv](char role) {
     for (Op& o : *pops) {
       if (o.role != role) continue;
       // ops of one role are sequential; ordering against the other role is up to the scheduler, except that an op
@@ -253,9 +272,9 @@ static void runL2m(const plan::Plan& p, hz::RunResult* res, bool verbose) {
         if (!m) m = map->find("cir", name, "", false, true);
         if (m) {
           MasterSymbolString master;
-          fill((*pMaster)[name], &master);
-          SlaveSymbolString slave;
-          fill(ref::unhex(o.l.get("slave")), &slave);
+          fill(o.l.has("master") ? ref::unhex(o.l.get("master")) : (*pMaster)[name], &master);
+          SlaveSymbolString slave;   // stays empty for broadcast and master-master telegrams, as in the protocol handler
+          if (!o.l.get("slave").empty()) fill(ref::unhex(o.l.get("slave")), &slave);
           o.result = m->storeLastData(master, slave);
         } else {
           o.result = -999;
@@ -278,6 +297,21 @@ static void runL2m(const plan::Plan& p, hz::RunResult* res, bool verbose) {
           if (m->setPollPriority(static_cast<size_t>(o.l.num("p", 1)))) map->addPollMessage(o.l.num("front", 0) != 0, m);
           o.result = 1;
         }
+      } else if (o.kind == "reload") {
+        // what the daemon does on "reload": drop everything, read the configuration again
+        map->clear();
+        std::istringstream is("#\n" + *pcsv);
+        std::string e2;
+        o.result = map->readFromStream(&is, "sim.csv", 1700000002, false, nullptr, &e2);
+        if (o.result == RESULT_OK) o.result = map->resolveConditions(false, &e2);
+      } else if (o.kind == "othermap") {
+        // a second, short lived map (the main loop keeps one for "read -def"/"write -def" and clears it for every such command)
+        MessageMap other(false, "", false);
+        std::istringstream is("#\nr5,tmp,x,,,08,b509,0d7f00,,,UCH\n");
+        std::string e2;
+        other.readFromStream(&is, "temporary", 1700000003, false, nullptr, &e2);
+        other.clear();
+        o.result = 1;
       } else if (o.kind == "load") {
         std::istringstream is("#\n" + decodeCsv(o.l.get("l")) + "\n");
         std::string e2;
@@ -321,9 +355,10 @@ static void runL2m(const plan::Plan& p, hz::RunResult* res, bool verbose) {
         if (last) {
           if (!rc.hasValues) holds = true;
           else {
-            Bytes slave = ref::unhex(last->l.get("slave"));
             const RefMsgDef& d = refMsgs[rc.refMsg];
-            size_t off = 1;
+            // the data part the fields live in: slave answer (after NN), or for broadcast/master-master messages the master data behind the ID
+            Bytes slave = d.masterPart ? ref::unhex(last->l.get("master")) : ref::unhex(last->l.get("slave"));
+            size_t off = d.masterPart ? 5 + d.idLen : 1;
             for (int k = 0; k < rc.field; k++) off += static_cast<size_t>(d.fieldLen[static_cast<size_t>(k)]);
             size_t len = static_cast<size_t>(d.fieldLen[static_cast<size_t>(rc.field)]);
             if (off + len <= slave.size()) {
@@ -454,6 +489,12 @@ static void runL2m(const plan::Plan& p, hz::RunResult* res, bool verbose) {
           if (np <= 0) since.erase(n);
         } else if (o.kind == "load" && o.l.has("name") && o.l.num("p") > 0) {
           since[o.l.get("name")] = 0;
+        } else if (o.kind == "reload") {
+          // back to the priorities of the configuration; late loaded definitions are gone
+          since.clear();
+          std::map<std::string, int> pr0 = prio;
+          for (auto& l : p.lines) if (l.kind == "refpoll" && l.num("cond", 0)) pr0[l.get("name")] = std::max(pr0[l.get("name")], 1);
+          for (auto& e : pr0) if (e.second > 0) since[e.first] = 0;
         }
       }
     }
@@ -462,11 +503,12 @@ static void runL2m(const plan::Plan& p, hz::RunResult* res, bool verbose) {
       if (o.kind == "poll") {
         nPolls++;
         if (!o.polled.empty()) window.push_back(o.polled);
-      } else if (o.kind == "setprio" || o.kind == "load") {
+      } else if (o.kind == "setprio" || o.kind == "load" || o.kind == "reload") {
         // perturbation: judge the window so far, then start a new one with a settling phase
         judge(window, winPrio, settleLen);
         window.clear();
-        if (o.kind == "setprio") winPrio[o.l.get("msg")] = static_cast<int>(o.l.num("p"));
+        if (o.kind == "reload") winPrio = prio;
+        else if (o.kind == "setprio") winPrio[o.l.get("msg")] = static_cast<int>(o.l.num("p"));
         else if (o.l.has("name")) winPrio[o.l.get("name")] = static_cast<int>(o.l.num("p"));
         size_t s = 1;
         for (auto& b : winPrio) if (b.second > 0) s += static_cast<size_t>(36 / b.second);
@@ -498,7 +540,7 @@ static plan::Plan genC13(uint64_t seed, const std::string& tier) {
            1000 + static_cast<int>(r.below(5000)));
   p.add(buf);
   int nref = 1 + static_cast<int>(r.below(2));
-  struct RefM { std::string name; std::vector<std::string> fn; std::vector<bool> num; std::vector<int> len; Bytes master; };
+  struct RefM { std::string name; std::vector<std::string> fn; std::vector<bool> num; std::vector<int> len; Bytes master; bool bc = false; };
   std::vector<RefM> refs;
   for (int i = 0; i < nref; i++) {
     RefM m;
@@ -516,6 +558,20 @@ static plan::Plan genC13(uint64_t seed, const std::string& tier) {
       fields += (k ? "," : "") + fname + ":" + (num ? "n1" : "s3");
     }
     m.master = {0x31, 0x08, 0xb5, 0x09, 0x03, 0x0d, static_cast<uint8_t>(i + 1), 0x00};
+    if (r.chance(0.3)) {
+      // a broadcast (or master-master) message seen passively: its fields are master data, the slave part stays empty
+      m.bc = true;
+      bool mm = r.chance(0.3);
+      csv = std::string("u,cir,") + m.name + ",,," + (mm ? "10" : "fe") + ",b516,0" + std::to_string(i + 1);
+      for (int k = 0; k < nf; k++) csv += "," + m.fn[static_cast<size_t>(k)] + ",m," + (m.num[static_cast<size_t>(k)] ? "UCH" : "STR:3") + ",,,";
+      int total = 0;
+      for (int l : m.len) total += l;
+      m.master = {0x03, static_cast<uint8_t>(mm ? 0x10 : 0xfe), 0xb5, 0x16, static_cast<uint8_t>(1 + total), static_cast<uint8_t>(i + 1)};
+      p.add("def l=" + csv);
+      p.add("refmsg name=" + m.name + " fields=" + fields + " master=" + hx(m.master) + " part=m idlen=1");
+      refs.push_back(m);
+      continue;
+    }
     p.add("def l=" + csv);
     p.add("refmsg name=" + m.name + " fields=" + fields + " master=" + hx(m.master));
     refs.push_back(m);
@@ -523,8 +579,9 @@ static plan::Plan genC13(uint64_t seed, const std::string& tier) {
   // conditions
   int ncond = 1 + static_cast<int>(r.below(3));
   bool wantBad = r.chance(0.15);
-  std::vector<std::string> condNames;
+  std::vector<std::string> condNames, condMsg, condField;
   std::vector<bool> condNumeric;
+  std::vector<int> condKind;   // 0: seen, 1: numeric values, 2: string values
   for (int i = 0; i < ncond; i++) {
     const RefM& m = refs[r.below(static_cast<uint32_t>(refs.size()))];
     std::string name = "c" + std::to_string(i);
@@ -590,6 +647,21 @@ static plan::Plan genC13(uint64_t seed, const std::string& tier) {
     }
     condNames.push_back(name);
     condNumeric.push_back(numeric && !values.empty());
+    condMsg.push_back(m.name);
+    condField.push_back(field);
+    condKind.push_back(values.empty() ? 0 : numeric ? 1 : 2);
+  }
+  // a second file that defines conditions of the same names with other values, and guards that combine them in the same way
+  bool twoFiles = !wantBad && r.chance(0.3);
+  if (twoFiles) {
+    for (size_t i = 0; i < condNames.size(); i++) {
+      std::string values;
+      static const char* nl[] = {"4;6;8-10", "<5", ">200", "<=7", ">=250", "0", "1-3;100-120", "254", "17"};
+      static const char* sl[] = {"'abc'", "'abc';'xyz'", "'a~b'", "'on~'"};
+      if (condKind[i] == 1) values = nl[r.below(9)]; else if (condKind[i] == 2) values = sl[r.below(4)];
+      p.add("def2 l=*[" + condNames[i] + "],cir," + condMsg[i] + ",," + condField[i] + ",," + values);
+      p.add("refcond file=2 name=" + condNames[i] + " msg=" + condMsg[i] + " field=" + condField[i] + " values=" + values);
+    }
   }
   // guarded messages
   int ng = 1 + static_cast<int>(r.below(3));
@@ -597,7 +669,7 @@ static plan::Plan genC13(uint64_t seed, const std::string& tier) {
   for (int i = 0; i < ng; i++) {
     std::string name = "g" + std::to_string(i);
     std::string pre, conds;
-    int nc = r.chance(0.25) && condNames.size() > 1 ? 2 : 1;
+    int nc = r.chance(twoFiles ? 0.6 : 0.25) && condNames.size() > 1 ? 2 : 1;
     std::set<size_t> used;
     for (int k = 0; k < nc; k++) {
       size_t ci = r.below(static_cast<uint32_t>(condNames.size()));
@@ -615,6 +687,14 @@ static plan::Plan genC13(uint64_t seed, const std::string& tier) {
     p.add("def l=" + pre + "r,cir," + name + ",,,08,b509,0d40" + hx(Bytes{static_cast<uint8_t>(i)}) + ",,,UCH");
     p.add("refguard name=" + name + " conds=" + conds + " master=" + hx(master));
     guarded.push_back(name);
+    if (twoFiles) {
+      // the same combination of the same names in the other file
+      std::string name2 = "h" + std::to_string(i);
+      Bytes master2 = {0x31, 0x08, 0xb5, 0x09, 0x03, 0x0d, 0x41, static_cast<uint8_t>(i)};
+      p.add("def2 l=" + pre + "r,cir," + name2 + ",,,08,b509,0d41" + hx(Bytes{static_cast<uint8_t>(i)}) + ",,,UCH");
+      p.add("refguard file=2 name=" + name2 + " conds=" + conds + " master=" + hx(master2));
+      guarded.push_back(name2);
+    }
   }
   // history: stores (bus role), clock steps, queries (main role)
   int nops = tier == "thorough" ? 20 + static_cast<int>(r.below(80)) : 10 + static_cast<int>(r.below(40));
@@ -639,7 +719,13 @@ static plan::Plan genC13(uint64_t seed, const std::string& tier) {
           for (int q = 0; q < 3; q++) slave.push_back(static_cast<uint8_t>(s[q]));
         }
       }
-      line = "op store t=b msg=" + m.name + " slave=" + hx(slave);
+      if (m.bc) {
+        Bytes master = m.master;
+        master.insert(master.end(), slave.begin() + 1, slave.end());
+        line = "op store t=b msg=" + m.name + " master=" + hx(master) + " slave=";
+      } else {
+        line = "op store t=b msg=" + m.name + " slave=" + hx(slave);
+      }
     } else if (k < 6) {
       static const int steps[] = {0, 1, 400, 1000, 61000};
       line = "op advance t=" + std::string(r.chance(0.5) ? "b" : "m") + " ms=" + std::to_string(steps[r.below(5)]);
@@ -703,8 +789,15 @@ static plan::Plan genC17(uint64_t seed, const std::string& tier) {
       }
     }
     if (ph + 1 < phases) {
-      int kind = static_cast<int>(r.below(10));
-      if (kind < 6) {
+      int kind = static_cast<int>(r.below(13));
+      if (kind >= 10) {
+        // reload of the configuration after a long polling history, then a message gets enabled
+        p.add("op reload t=m after=" + std::to_string(opIdx - 1));
+        opIdx++;
+        snprintf(buf, sizeof(buf), "op setprio t=m msg=%s p=%d front=0 after=%d", names[r.below(static_cast<uint32_t>(names.size()))].c_str(), 1 + static_cast<int>(r.below(9)), opIdx - 1);
+        p.add(buf);
+      } else if (kind < 6) {
+        if (r.chance(0.3)) { p.add("op othermap t=m after=" + std::to_string(opIdx - 1)); opIdx++; }
         snprintf(buf, sizeof(buf), "op setprio t=m msg=%s p=%d front=%d after=%d", names[r.below(static_cast<uint32_t>(names.size()))].c_str(), 1 + static_cast<int>(r.below(9)),
                  r.chance(0.3) ? 1 : 0, opIdx - 1);
         p.add(buf);
